@@ -333,6 +333,11 @@ open_dump(kdump_ctx_t *ctx)
 
 	ctx->xlat->dirty = true;
 
+	/* Drop attributes derived from a previously opened dump before
+	 * the first probe, not only after a failed one.
+	 */
+	clear_volatile_attrs(ctx);
+
 	for (i = 0; i < ARRAY_SIZE(formats); ++i) {
 		ctx->shared->ops = formats[i];
 		ret = ctx->shared->ops->probe(ctx);
